@@ -1413,6 +1413,13 @@ class ForAll(BinaryOperator):
             yield out
 
 
+def not_contains(a, b):
+    """
+    The inverse of operator.contains.
+    """
+    return not operator.contains(a, b)
+
+
 @dataclass(eq=False)
 class Comparator(BinaryOperator):
     """
@@ -1428,6 +1435,11 @@ class Comparator(BinaryOperator):
                                                     operator.le: "<=",
                                                     operator.gt: ">",
                                                     operator.ge: ">="}
+    inverse_operation_map: ClassVar[Dict[Any, Any]] = {operator.lt: operator.ge, operator.ge: operator.lt,
+                                                       operator.gt: operator.le, operator.le: operator.gt,
+                                                       operator.eq: operator.ne, operator.ne: operator.eq,
+                                                       operator.contains: not_contains,
+                                                       not_contains: operator.contains}
 
     @property
     def _invert_(self):
@@ -1438,27 +1450,11 @@ class Comparator(BinaryOperator):
         if value == self._invert__:
             return
         self._invert__ = value
+        # Every toggle of the inversion flag swaps the operation with its inverse (in both directions).
         prev_operation = self.operation
-        match self.operation:
-            case operator.lt:
-                self.operation = operator.ge if self._invert_ else self.operation
-            case operator.gt:
-                self.operation = operator.le if self._invert_ else self.operation
-            case operator.le:
-                self.operation = operator.gt if self._invert_ else self.operation
-            case operator.ge:
-                self.operation = operator.lt if self._invert_ else self.operation
-            case operator.eq:
-                self.operation = operator.ne if self._invert_ else self.operation
-            case operator.ne:
-                self.operation = operator.eq if self._invert_ else self.operation
-            case operator.contains:
-                def not_contains(a, b):
-                    return not operator.contains(a, b)
-
-                self.operation = not_contains if self._invert_ else self.operation
-            case _:
-                raise ValueError(f"Unsupported operation: {self.operation.__name__}")
+        if prev_operation not in self.inverse_operation_map:
+            raise ValueError(f"Unsupported operation: {self.operation.__name__}")
+        self.operation = self.inverse_operation_map[prev_operation]
         self._node_.name = self._node_.name.replace(prev_operation.__name__, self.operation.__name__)
 
     @property
@@ -1778,7 +1774,7 @@ def Not(operand: Any) -> SymbolicExpression:
     elif isinstance(operand, OR):
         operand = AND(Not(operand.left), Not(operand.right))
     else:
-        operand._invert_ = True
+        operand._invert_ = not operand._invert_
     return operand
 
 
